@@ -116,18 +116,15 @@ Definition den_insert (d : hden) (n : dname) (a : ipaddr) : hden :=
    [None] = the line is malformed *)
 Inductive contrib := CNothing | CMaps (a : ipaddr) (ns : list dname) | CBad.
 
-(* an address-only line: the code reads the address as soon as white space
-   follows it, so "zzz " and "zzz #c" are errors while "zzz" and "zzz#c" are
-   ignored; a well-formed address is ignored either way *)
+(* an address-only line maps no names, so it contributes nothing whatever its
+   address field is ("zzz", "zzz#c", "zzz ", "zzz #c" are all ignored); a
+   malformed address is an error only on a line that maps at least one name *)
 Definition line_contrib (l : line) : contrib :=
   match l with
   | Blank _ | Comment _ _ | Scoped _ _ _ => CNothing
   | Map m =>
     match m_names m with
-    | [] => match m_trail m, parse_ip (m_addr m) with
-            | _ :: _, None => CBad
-            | _, _ => CNothing
-            end
+    | [] => CNothing
     | _ :: _ =>
       match parse_ip (m_addr m), all_some (map (fun p => abs_name (snd p)) (m_names m)) with
       | Some a, Some ns => CMaps a ns
